@@ -36,20 +36,35 @@ def classify(path, ev):
             return ("tried", None)
     for (t, op, v) in path.constraints:
         if t == ("discr", r) or (t[0] == "discr" and t[1] == r):
+            # explicit match: fine when the Err arm returns an error (or loops back); the Ok arm continues
+            is_err_arm = (op == "==" and v == 1)
+            if not is_err_arm:
+                return ("matched-ok", None)
+            rt = path.ret
+            if path.end[0] == "cut" or (isinstance(rt, tuple) and ((rt[0] == "agg" and rt[3] in ("Err", "None")) or rt[0] == "from_residual")):
+                return ("matched-ok", None)
+            # std's retry idiom: `Err(e) if e.kind() == ErrorKind::Interrupted => continue`
+            kinds = [e for e in path.events if e[0] == "call" and e[1] == "std::io::Error::kind"
+                     and mir.mentions(e[2][0], lambda x: x == ("variant", r, "Err"))]
+            for kd in kinds:
+                eqs = [e for e in path.events if e[0] == "call" and e[1].endswith("PartialEq::eq") and any(mentions(a, kd[3]) for a in e[8])]
+                for q in eqs:
+                    if any(t == q[3] and ((o == "notin" and vv == (0,)) or (o == "==" and vv == 1)) for (t, o, vv) in path.constraints):
+                        return ("matched-ok", "retry on a tested error kind")
             return ("matched", (op, v))
     if path.ret is not None and mentions(path.ret, r):
         return ("returned", None)
     for e in path.events[idx + 1:]:
         if e[0] != "call":
             continue
-        if e[2] and e[2][0] == r:
+        if e[8] and e[8][0] == r:
             nm = e[1]
             if any(nm.endswith(a) for a in ADAPTORS):
                 k, d = classify(path, e)
                 return ("adapted:" + k, (nm, d))
             if any(nm.endswith(c) for c in CONSUMERS):
                 return ("consumed", nm)
-        if any(mentions(a, r) for a in e[2]):
+        if any(mentions(a, r) for a in e[8]):
             return ("passed", e[1])
     # stored somewhere?
     for e in path.events[idx + 1:]:
